@@ -24,6 +24,7 @@ Games ==
       [] Family = "forced" -> DescribeAll("forced", Pick(K, ForcedGames))
       [] Family = "degen" -> DescribeAll("degen", DegenGames)
       [] Family = "jump1" -> DescribeAll("jump1", Pick(K, Jump1Games))
+      [] Family = "order3" -> DescribeAll("order3", Order3Games)
       [] Family = "duplabel" -> DescribeAll("duplabel", DupLabelGames)
       [] Family = "minreachrank" -> DescribeAll("minreachrank", MinReachRankGames)
       [] Family = "finaldeadend" -> DescribeAll("finaldeadend", FinalDeadEndGames)
